@@ -1,5 +1,5 @@
 //@file src/append/file.rs
-//@harness c04_file_append strength=bounded bound="one append call; encoder writing 0..=3 bytes and succeeding or failing; flush succeeding (the failing-flush path converts io::Error into anyhow::Error, which CBMC does not finish); parking_lot slow paths replaced by no-ops" timeout=2400 replay=no
+//@harness c04_file_append strength=bounded bound="one append call, the mutex free or held by another owner at call time; encoder writing 0..=3 bytes or 1023+1 bytes (buffer exactly full) and succeeding or failing; flush succeeding (the failing-flush path converts io::Error into anyhow::Error, which CBMC does not finish); parking_lot slow paths replaced by no-ops" timeout=2400 replay=no
 // FileAppender::append: the record is encoded and the buffered writer flushed exactly once each, in that order, while the
 // appender's mutex is held; Ok is returned only after the flush succeeded; the mutex is released afterwards; errors of
 // the encoder and of the flush are returned.
@@ -14,6 +14,7 @@ mod __verif_c04 {
     static mut LOCKED_AT: [bool; 6] = [false; 6];
     static mut MTX: *const Mutex<SimpleWriter<BufWriter<File>>> = std::ptr::null();
     static mut NBYTES: usize = 0;
+    static mut BIG: bool = false;
     static mut ENC_FAILS: bool = false;
     static mut FLUSH_FAILS: bool = false;
     fn ev(e: u8) { unsafe { if TN < 6 { TRACE[TN] = e; LOCKED_AT[TN] = (*MTX).is_locked(); } TN += 1; } }
@@ -28,8 +29,15 @@ mod __verif_c04 {
     impl Encode for Enc {
         fn encode(&self, w: &mut dyn encode::Write, _r: &Record) -> anyhow::Result<()> {
             ev(2);
-            let b = [b'x'; 3];
-            let _ = w.write(&b[..unsafe { NBYTES }]);
+            if unsafe { BIG } {
+                // a multi-chunk record that leaves exactly 1024 bytes in the 1 KiB buffer (no syscall is reached)
+                let big = [b'x'; 1023];
+                let _ = w.write(&big);
+                let _ = w.write(b"\n");
+            } else {
+                let b = [b'x'; 3];
+                let _ = w.write(&b[..unsafe { NBYTES }]);
+            }
             // an opaque, never-dropped error token (constructing a real anyhow::Error does not terminate in CBMC)
             if unsafe { ENC_FAILS } { Err(unsafe { std::mem::transmute::<usize, anyhow::Error>(0x1000) }) } else { Ok(()) }
         }
@@ -45,12 +53,18 @@ mod __verif_c04 {
     fn c04_file_append() {
         let nbytes: usize = kani::any(); kani::assume(nbytes <= 3);
         let ef: bool = kani::any(); let ff: bool = false;
+        let big: bool = kani::any();
+        // another thread may hold the mutex when append is called: the caller then waits (lock_slow) and appends afterwards
+        let contended: bool = kani::any();
         let app = FileAppender { path: PathBuf::from("f"), file: Mutex::new(SimpleWriter(BufWriter::with_capacity(1024, unsafe { File::from_raw_fd(7) }))), encoder: Box::new(Enc) };
-        unsafe { NBYTES = nbytes; ENC_FAILS = ef; FLUSH_FAILS = ff; TN = 0; TRACE = [0; 6]; MTX = &app.file; }
+        unsafe { NBYTES = nbytes; BIG = big; ENC_FAILS = ef; FLUSH_FAILS = ff; TN = 0; TRACE = [0; 6]; MTX = &app.file; }
+        if contended { std::mem::forget(app.file.lock()); }
         let rec = Record::builder().build();
         let r = Append::append(&app, &rec);
         let (t, n, l) = unsafe { (TRACE, TN, LOCKED_AT) };
         kani::cover!(ef, "encoder fails");
+        kani::cover!(big && !ef, "record that fills the buffer exactly");
+        kani::cover!(contended, "mutex held by someone else at the time of the call");
         assert!(n >= 1 && t[0] == 2 && l[0], "append#post the record is encoded first, with the mutex held");
         if ef {
             assert!(n == 1, "append#post an encoder error stops the call: nothing is flushed");
